@@ -125,18 +125,24 @@ CLAIMED["C10"] = dict(
     design="DESIGN.md §5 C10")
 CLAIMED["C04"] = dict(
     level="proof",
-    text="PARTIAL (ports and services at the file-system level are not modelled). File-system level of the NODE: Lean kill tables and theorems over the step-level Lifecycle model "
+    text="PARTIAL (a process killed INSIDE a port's creation / removal and the service files of the other messaging patterns are not modelled). SERVICE level: Lean kill tables over the "
+         "step-level ServiceCrash model (creator 20 steps, opener 23 steps, cleaner, re-creator; `Sys.withCrash`) for EVERY crash point: after the survivors' clean-up the system is restored "
+         "(nothing left, the name can be created again) exactly when the decidable predicate `cleanPoint` holds; the three windows where it is not (service tag / static config still at creation "
+         "permission, dynamic config not yet sized) are refutations with concrete witnesses = known findings; a second crash of the cleaner changes nothing. PORT level (publish-subscribe): the "
+         "death of a node between two API calls followed by the clean-up is observationally an orderly drop of its objects, expressed with the proved L1 model's own operations (all C01/C02/C08 "
+         "theorems apply to the survivors). File-system level of the NODE: Lean kill tables and theorems over the step-level Lifecycle model "
          "(see C07): a process killed between the commit of its monitoring token and the removal of its state file is collected completely by a survivor; killed earlier or later it is "
          "NOT (details file / token files / owner-lock + context orphaned for ever; a tag still at creation permission makes the node uncollectable; a failed cleanup drops the token and "
          "leaves the resources) — each proved as a refutation and replayed with a kill at the exact system call (known findings). Shared-memory level: Lean 4 theorems over the crash-extended interleaving models (`Sys.withCrash`: every thread = process carries a fuse and dies at ANY atomic step, frozen in the middle "
          "of whatever operation it was in) of the two shared-memory structures every lifecycle operation goes through — RobustUniqueIndexSet and the registry Container: survivors keep "
          "exclusive ownership; recovery acts only for dead owners, returns exactly their cells and is complete wherever they died; generations/lock monotone; every snapshot entry a "
          "survivor ever sees was genuinely published (no phantom, no torn entry) and odd generation <=> published for every slot in every reachable state; after recovery the dead owner "
-         "is gone from the registry. One statement (no orphaned cell) is false in locked sets and proved false. The file-system / system-call level of the property (node, service, port "
-         "files; kill at every system call) is NOT covered by theorems.",
+         "is gone from the registry. One statement (no orphaned cell) is false in locked sets and proved false.",
     note="Trusted: Lean kernel + 3 standard axioms; hand-written L2 models + generic crash wrapper (tie = atomic-step traces with a logical thread killed at its k-th step, compared step by "
-         "step); SC interleavings; the model includes the repair af4ba06 of the defect this check found (phantom registry entry after a death inside Container::add).",
-    technique="Lean 4 proof (crash-closed inductive invariants over an interleaving semantics with arbitrary death points) + atomic-step trace correspondence with crash injection",
+         "step; real processes killed with strace at every system call of node / service creation, opening, drop and clean-up, survivors' verdicts, leftovers and the re-creation compared with "
+         "the proved kill tables; a real child process SIGKILLed between API calls for the port level); SC interleavings; the model includes the repair af4ba06 of the defect this check found "
+         "(phantom registry entry after a death inside Container::add).",
+    technique="Lean 4 proof (crash-closed inductive invariants over an interleaving semantics with arbitrary death points; kill tables decided in the kernel and lifted to every fuse) + atomic-step / system-call trace correspondence with crash injection",
     design="DESIGN.md §5 C04")
 CLAIMED["C02"] = dict(
     level="proof",
@@ -259,7 +265,7 @@ CLAIMED["C17"] = dict(
     design="DESIGN.md §5 C17")
 NOT_YET = {}
 
-ENGINE_OF = {"C03": "lean+steptrace", "C04": "lean+steptrace+lifecycle", "C05": "lean+steptrace+seqdiff", "C07": "lean+lifecycle", "C09": "lean+steptrace+seqdiff",
+ENGINE_OF = {"C03": "lean+steptrace", "C04": "lean+steptrace+lifecycle+seqdiff", "C05": "lean+steptrace+seqdiff", "C07": "lean+lifecycle", "C09": "lean+steptrace+seqdiff",
              "C10": "lean+steptrace", "C12": "lean+steptrace+seqdiff", "C13": "lean+steptrace", "C14": "lean+translator+seqdiff+steptrace", "C15": "lean+seqdiff+steptrace",
              "C06": "lean+svclife", "C18": "lean+translator+seqdiff"}
 
@@ -290,7 +296,7 @@ def main():
                    baseline_off_cmd="cd /repo && cargo nextest run --workspace --no-fail-fast --test-threads 8 --offline || cargo test --workspace --no-fail-fast --offline",
                    source_commits=[], add_only=True),
         engines=[dict(name="lean", path="/verif/lean", serves_properties=sorted(CLAIMED), kind_free_text="Lean 4 models + theorems (lake build of Iox2/Props/<id>*.lean), axiom audit, compiled line-protocol driver iox2driver"),
-                 dict(name="seqdiff", path="/verif/harness", serves_properties=["C01", "C02", "C05", "C08", "C09", "C11", "C12", "C14", "C15", "C16", "C17", "C18", "C19", "C20"],
+                 dict(name="seqdiff", path="/verif/harness", serves_properties=["C01", "C02", "C04", "C05", "C08", "C09", "C11", "C12", "C14", "C15", "C16", "C17", "C18", "C19", "C20"],
                       kind_free_text="Rust harness calling the real code in-process, one operation per line; differential vs the Lean driver, shrinking, oracles on the implementation alone"),
                  dict(name="steptrace", path="/verif/harness/src/trace", serves_properties=["C03", "C04", "C05", "C09", "C10", "C12", "C13", "C14", "C15"],
                       kind_free_text="instrumented drop-in of iceoryx2-pal-concurrency-sync regenerated from /repo (cargo paths override), baton scheduler: random and bounded-preemption exhaustive schedules, blocking, alias mappings, crash fuse; atomic-step traces compared with the L2 models"),
